@@ -13,6 +13,7 @@ never hides a failure of the others in the same case.
 import Driver.Proto
 import AdaptaVerif.Model.ShortestPaths
 import AdaptaVerif.Check.Apsp
+import AdaptaVerif.Model.PairingHeap
 namespace Driver.C17
 open Driver AdaptaVerif.Num AdaptaVerif.Model.ShortestPaths AdaptaVerif.Check.Apsp
 
@@ -166,18 +167,34 @@ def extractOk (live : List (Nat × Rat)) (id : Nat) (k : Rat) : Bool :=
   live.contains (id, k) && live.all fun x => decide (k ≤ x.2)
 
 def checkHeap (c : Case) : CaseResult := Id.run do
-  let mut live : List (Nat × Rat) := []
+  let mut live : List (Nat × Rat) := []          -- multiset specification
+  let mut H : AdaptaVerif.Model.PairingHeap.PTree := .nil     -- tree model (mirrors the pointer structure)
+  let mut B : AdaptaVerif.Model.PairingHeap.PTree := .nil
+  let mut pendingB := 0
   let mut next := 0
   let mut nops := 0
   let mut nx := 0
+  let mut ties := 0
   let outs := c.get "x"
   for l in c.get "h" do
     nops := nops + 1
     let op := l[0]!
-    if op == "i" || op == "j" then
+    if op == "i" then
       let some k := num? l[1]! | return { verdict := .diverge "unparsable key" }
       live := (next, k) :: live
+      H := AdaptaVerif.Model.PairingHeap.insert H k next
       next := next + 1
+    else if op == "g" then
+      pendingB := nat! l[1]!
+      B := .nil
+      if pendingB == 0 then H := AdaptaVerif.Model.PairingHeap.merge H B
+    else if op == "j" then
+      let some k := num? l[1]! | return { verdict := .diverge "unparsable key" }
+      live := (next, k) :: live
+      B := AdaptaVerif.Model.PairingHeap.insert B k next
+      next := next + 1
+      pendingB := pendingB - 1
+      if pendingB == 0 then H := AdaptaVerif.Model.PairingHeap.merge H B
     else if op == "m" || op == "z" then
       let mut todo := if op == "m" then 1 else live.length
       if op == "z" && outs.size != nx + todo then
@@ -189,16 +206,25 @@ def checkHeap (c : Case) : CaseResult := Id.run do
         let id := nat! o[1]!
         if !extractOk live id k then
           return { verdict := .diverge s!"PairingHeap: extraction #{nx} returned item {id} key {ratToString k}, not a minimum of the multiset {live.map fun x => (x.1, ratToString x.2)}" }
+        if (live.filter fun x => x.2 == k).length > 1 then ties := ties + 1
+        match AdaptaVerif.Model.PairingHeap.findMin H with
+        | some (mk, mid) =>
+          if mk != k || mid != id then
+            return { verdict := .diverge s!"PairingHeap tree model: extraction #{nx} model (key {ratToString mk}, item {mid}) impl (key {ratToString k}, item {id})" }
+        | none => return { verdict := .diverge s!"PairingHeap tree model empty at extraction #{nx}" }
+        H := AdaptaVerif.Model.PairingHeap.deleteMin H
         live := live.filter fun x => x.1 != id
         nx := nx + 1
     else if op == "d" then
       let id := nat! l[1]!
       let some k := num? l[2]! | return { verdict := .diverge "unparsable key" }
       live := live.map fun x => if x.1 == id then (id, k) else x
+      H := AdaptaVerif.Model.PairingHeap.decreaseKey H id k
     else pure ()
   if nx != outs.size then
     return { verdict := .diverge s!"PairingHeap: {outs.size} extractions, multiset model {nx}" }
-  return { verdict := .ok, nontrivial := nx > 1, stats := [("heap.ops", nops), ("heap.extractions", nx)] }
+  return { verdict := .ok, nontrivial := nx > 1,
+           stats := [("heap.ops", nops), ("heap.extractions", nx), ("heap.extractions-with-tied-minimum", ties)] }
 
 def run (_args : List String) : IO UInt32 :=
   runCases (fun c => if c.tag == "heap-ops" then checkHeap c else checkGraph c)
